@@ -98,6 +98,7 @@ B_c2    == LitBlob(<<99, 50>>)                     \* "c2"
 B_utf8  == LitBlob(<<104, 195, 169, 226, 130, 172>>)   \* "h" e-acute euro-sign
 B_query == LitBlob(<<83, 69, 76, 69, 67, 84, 32, 49>>) \* "SELECT 1"
 B_long  == RepBlob(120, 65535)                     \* 65535 times "x": the longest [string]
+B_mid   == RepBlob(122, 32768)                     \* the first length whose [short] prefix has its top bit set (signed / unsigned slips)
 B_long2 == RepBlob(121, 70000)                     \* longer than a [string] can hold: only for [long string] / [bytes]
 B_blob  == LitBlob(<<0, 255, 128, 1>>)
 L_zero  == <<0, 0, 0, 0, 0, 0, 0, 0>>
